@@ -209,7 +209,8 @@ def _sweep_task(task, out):
     for rnd in range(2):
         for K in widths:
             N = 4 if v2 else 2
-            M = ((torch.arange(N * K, dtype=torch.int64) * 7 + rnd) % 16).to(torch.uint8).reshape(N, K)
+            i_ = torch.arange(N * K, dtype=torch.int64)
+            M = ((((i_ * 40503) >> 5) + (i_ >> 9) + rnd) % 16).to(torch.uint8).reshape(N, K)
             c = [rnd, K]
             case = dict(task, only=c)
             out["evals"] += 1
@@ -228,7 +229,8 @@ def _sweep_task(task, out):
             held.append((c, M, p))
     # one layout unpacked many times (the same weight evaluated at every forward pass), including sizes between 2^15 and 2^16
     for N, K in (((64, 768), (128, 384), (192, 256), (4, 64), (256, 256)) if v2 else ((2, 8), (64, 1000), (3, 16384 + 8))):
-        M = ((torch.arange(N * K, dtype=torch.int64) * 11) % 16).to(torch.uint8).reshape(N, K)
+        i_ = torch.arange(N * K, dtype=torch.int64)
+        M = ((((i_ * 40503) >> 5) + (i_ >> 9) + (i_ >> 15)) % 16).to(torch.uint8).reshape(N, K)  # not periodic in the flat index
         c = ["same", N, K]
         try:
             p = AWQPackedTensor.pack(M, packing=AWQPacking.V2) if v2 else AWQPackedTensor.pack(M, packing=AWQPacking.V1, reorder=reorder)
